@@ -703,19 +703,20 @@ static void getConfigs(const simplecpp::TokenList &tokens, std::set<std::string>
                     config.clear();
                 configs_if.push_back(std::move(config));
                 ret.insert(cfg(configs_if, userDefines));
-            } else if (!configs_ifndef.empty()) {
+            } else if (!configs_ifndef.empty() && ret.find(configs_ifndef.back()) == ret.end()) {
                 //Check if ifndef already existing in ret as more general/specific version
                 const std::string &confCandidate = configs_ifndef.back();
-                if (ret.find(confCandidate) == ret.end()) {
-                    // No instance of config_ifndef in ret. Check if a more specific version exists, in that case replace it
-                    const std::set<std::string>::iterator it = ret.find(confCandidate + "=" + confCandidate);
-                    if (it != ret.end()) {
-                        // The instance in ret is more specific than the one in confCandidate (no =value), replace it with the one in confCandidate
-                        ret.erase(it);
-                    }
-                    configs_if.push_back(configs_ifndef.back());
-                    ret.insert(cfg(configs_if, userDefines));
+                // No instance of config_ifndef in ret. Check if a more specific version exists, in that case replace it
+                const std::set<std::string>::iterator it = ret.find(confCandidate + "=" + confCandidate);
+                if (it != ret.end()) {
+                    // The instance in ret is more specific than the one in confCandidate (no =value), replace it with the one in confCandidate
+                    ret.erase(it);
                 }
+                configs_if.push_back(configs_ifndef.back());
+                ret.insert(cfg(configs_if, userDefines));
+            } else {
+                // keep the nesting level: the matching #endif pops one entry
+                configs_if.emplace_back();
             }
         } else if (cmdtok->str() == "endif" && !sameline(tok, cmdtok->next)) {
             if (!configs_if.empty())
